@@ -403,7 +403,10 @@ def make_pmappings(
     ) in parallel(
         calls,
         pbar=f"Generating pmappings" if print_progress or one_pbar_only else None,
-        return_as="generator_unordered",
+        # In job order: equal-cost pmappings from different templates are kept
+        # first-come, so consuming results as they complete would make the chosen
+        # mapping depend on scheduling.
+        return_as="generator",
     ):
         pmapping_groups[einsum_name].extend(new_pmapping_groups)
         pmapping_objects.setdefault(einsum_name, {}).update(pmappings)
